@@ -14,7 +14,7 @@ import itertools
 import operator
 from collections import OrderedDict
 
-from glom import glom, T, Val, SKIP, STOP, Auto, Sum, Flatten, Merge, Fold
+from glom import glom, T, Val, SKIP, STOP, Auto, Sum, Flatten, Merge, Fold, Pipe
 from glom.grouping import Group, First, Max, Min, Avg, Limit
 from glom.reduction import Count
 
@@ -413,6 +413,11 @@ def menu():
         ('empty-input-dict', lambda: glom([], Group({T % 2: [T]})), {}),
         ('empty-input-list', lambda: glom([], Group([T])), []),
         ('empty-input-agg', lambda: glom([], Group(Max())), None),
+        # an inner Group that is a NON-LAST step of a Pipe evaluated per item of an outer Group: the outer accumulators go on after it
+        ('inner-group-then-outer-list', lambda: glom([[1, 2], [3, 4]], Group(Pipe(Group([T]), [T]))), [[1, 2], [3, 4]]),
+        ('inner-group-then-outer-buckets', lambda: glom([[1, 2], [3], [5, 6]], Group(Pipe(Group(Count()), {T % 2: [T]}))), {0: [2, 2], 1: [1]}),
+        ('inner-group-then-outer-aggregate', lambda: glom([[1, 2], [3], [5, 6]], Group(Pipe(Group(Count()), Sum()))), 5),
+        ('inner-group-wrapped-in-auto-then-outer-list', lambda: glom([[1, 2], [3, 4]], Group(Pipe(Auto(Group([T])), [T]))), [[1, 2], [3, 4]]),
         ('group-as-pipe-step-twice',
          (lambda: (lambda g: glom([[1, 2], [3]], [g]))(Group(Count()))), [2, 1]),
     ]
